@@ -1665,7 +1665,7 @@ class Problem(object, metaclass=ProblemMetaclass):
         approx_wrt = model._owns_approx_wrt
         approx_jac_meta = model._owns_approx_jac_meta
         old_jac = model._jacobian
-        old_subjacs = model._subjacs_info.copy()
+        old_subjacs = {key: meta.copy() for key, meta in model._subjacs_info.items()}
         old_schemes = model._approx_schemes
 
         Jfds = []
@@ -1706,15 +1706,15 @@ class Problem(object, metaclass=ProblemMetaclass):
             else:
                 Jfds.append((Jfd, step))
 
-        # reset the _owns_approx_jac flag after approximation is complete.
-        if not approx:
-            model._jacobian = old_jac
-            model._owns_approx_jac = False
-            model._owns_approx_of = approx_of
-            model._owns_approx_wrt = approx_wrt
-            model._owns_approx_jac_meta = approx_jac_meta
-            model._subjacs_info = old_subjacs
-            model._approx_schemes = old_schemes
+        # put the model's own jacobian and approximation settings back after the check is complete
+        # (also when the model itself uses approx_totals: the check must not leave its method and step behind).
+        model._jacobian = old_jac
+        model._owns_approx_jac = approx
+        model._owns_approx_of = approx_of
+        model._owns_approx_wrt = approx_wrt
+        model._owns_approx_jac_meta = approx_jac_meta
+        model._subjacs_info = old_subjacs
+        model._approx_schemes = old_schemes
 
         # Assemble and Return all metrics.
         data = {'': {}}
